@@ -75,7 +75,8 @@ type freq struct {
 }
 
 type respScript struct {
-	status     int // 0 = no Status header
+	status     int  // 0 = no Status header
+	cgiRedir   bool // a CGI client-redirect response (RFC 3875 6.2.3): Location with an absolute URI, no Status, no body: a 302
 	reason     string
 	hdrs       [][2]string
 	body       []byte
@@ -607,7 +608,15 @@ func (r *fcgiRig) addReq(i int) {
 		copy(sc.body[bl/2:], []byte("é"))
 	}
 	sc.withCL = st.Draw(2) == 0
+	if sc.status == 0 && st.Draw(3) == 0 {
+		sc.cgiRedir, sc.withCL, sc.body, bl = true, false, nil, 0
+		sc.hdrs = [][2]string{{"Location", fmt.Sprintf("http://other.test/new%d", i)}, {"X-Resp-Tok", fmt.Sprintf("tok%d", i)}}
+		r.c.Probe("cgi-client-redirect")
+	}
 	streamLen := 60 + bl
+	if sc.cgiRedir {
+		streamLen = 50 // (the whole output is this header block; a cut beyond it would drop the burst with it)
+	}
 	nc := st.Draw(5)
 	for k := 0; k < nc; k++ {
 		sc.cuts = append(sc.cuts, 1+st.Draw(streamLen))
@@ -842,8 +851,12 @@ func (r *fcgiRig) judge() {
 		if wantStatus == 0 {
 			wantStatus = 200
 		}
+		how := ""
+		if sc.cgiRedir {
+			wantStatus, how = 302, "cgi-client-redirect"
+		}
 		if resp.Status != wantStatus {
-			c.Violate("C13/status-differs", "", "request %d: responder said %d, client got %d", q.id, wantStatus, resp.Status)
+			c.Violate("C13/status-differs", how, "request %d: responder said %d (Status header: %v, Location without Status: %v), client got %d", q.id, wantStatus, sc.status != 0, sc.cgiRedir, resp.Status)
 		}
 		for _, h := range sc.hdrs {
 			if got := resp.Header.Get(h[0]); got != h[1] {
